@@ -97,16 +97,35 @@ def r2_media_type(chk: Check) -> None:
         chk.violation("C04.R2", vr, "validate_response extracts the documented schema", "no schema extraction", vr.loc())
     helper = P.maybe_func(f"{OAS}:_find_media_type_definition")
     if helper is not None:
-        t = unparse(helper.node, 100000)
-        chk.expect("media_types.parse" in t and "expected == received" in t, "C04.R2", helper, "media types compared after parsing (parameters ignored)", "comparison shape not recognised", helper.loc())
+        parsed = {name_of(b, "v") for _n, b in pfind("$v = media_types.parse($_)", helper.node)}
+        eqs = [b for _n, b in pfind("$a == $b", helper.node) if {name_of(b, "a"), name_of(b, "b")} <= parsed and name_of(b, "a") != name_of(b, "b")]
+        chk.expect(len(parsed) >= 2 and bool(eqs), "C04.R2", helper, "media types compared after parsing (parameters ignored)", "comparison shape not recognised", helper.loc())
+
+
+def _failure_list(fn: FuncInfo) -> str | None:
+    """The local list that collects failures: created empty (typed list of Failure or plain []) and appended with a Failure-like constructor / handed to _maybe_raise_one_or_more."""
+    raised = [c.args[0].id for c in body_calls(fn) if last_attr(c) == "_maybe_raise_one_or_more" and c.args and isinstance(c.args[0], ast.Name)]
+    if raised:
+        return raised[0]
+    cands = []
+    for n in walk_body(fn.node):
+        if isinstance(n, (ast.Assign, ast.AnnAssign)) and isinstance(n.value, ast.List) and not n.value.elts:
+            t = n.targets[0] if isinstance(n, ast.Assign) else n.target
+            if isinstance(t, ast.Name) and any(last_attr(c) == "append" and dotted(c.func.value) == t.id for c in body_calls(fn) if isinstance(c.func, ast.Attribute)):
+                cands.append(t.id)
+    return cands[0] if len(cands) == 1 else None
 
 
 def r3_collected_raise(chk: Check) -> None:
     chk.rule("C04.R3", "MUST-PASS(collected failure, raise): every path from failures/errors.append(...) to a normal exit calls _maybe_raise_one_or_more on that list", floor=2)
     P = chk.project
-    for ref, lst in ((f"{OAS}:BaseOpenAPISchema.validate_response", "failures"), (f"{CHECKS}:response_headers_conformance", "errors")):
+    for ref in (f"{OAS}:BaseOpenAPISchema.validate_response", f"{CHECKS}:response_headers_conformance"):
         fn = P.func(ref)
         g = cfg_of(fn)
+        lst = _failure_list(fn)
+        if lst is None:
+            chk.undecided("C04.R3", fn, "<list>.append(...) -> _maybe_raise_one_or_more(<list>)", "the list collecting failures is not recognised", fn.loc())
+            continue
         appends = [c for c in body_calls(fn) if last_attr(c) == "append" and isinstance(c.func, ast.Attribute) and dotted(c.func.value) == lst]
         raises = [c for c in body_calls(fn) if last_attr(c) == "_maybe_raise_one_or_more" and c.args and unparse(c.args[0]) == lst]
         if not appends:
@@ -150,28 +169,35 @@ def r5_registered(chk: Check) -> None:
     vr = P.func(f"{OAS}:BaseOpenAPISchema.validate_response")
     for h in [n for n in walk_body(vr.node) if isinstance(n, ast.ExceptHandler)]:
         cls = [c.rsplit(".", 1)[-1] for c in handler_classes(h)]
-        appended = any(last_attr(c) == "append" and dotted(c.func.value) == "failures" for c in calls(h))  # type: ignore[union-attr]
-        chk.decide(appended, "C04.R5", vr, f"except {', '.join(cls)} appends a failure", f"a {cls[0]} while validating the body is swallowed: the deviating response is passed", vr.loc(h))
+        lst = _failure_list(vr)
+        appended = any(last_attr(c) == "append" and dotted(c.func.value) == lst for c in calls(h))  # type: ignore[union-attr]
+        chk.decide(appended if lst else None, "C04.R5", vr, f"except {', '.join(cls)} appends a failure", f"a {cls[0]} while validating the body is swallowed: the deviating response is passed", vr.loc(h))
     rh = P.func(f"{CHECKS}:response_headers_conformance")
     for h in [n for n in walk_body(rh.node) if isinstance(n, ast.ExceptHandler)]:
         cls = [c.rsplit(".", 1)[-1] for c in handler_classes(h)]
-        appended = any(last_attr(c) == "append" and dotted(c.func.value) == "errors" for c in calls(h))  # type: ignore[union-attr]
-        chk.decide(appended, "C04.R5", rh, f"headers: except {', '.join(cls)} appends a failure", "a header violating its schema is swallowed", rh.loc(h))
+        lst = _failure_list(rh)
+        appended = any(last_attr(c) == "append" and dotted(c.func.value) == lst for c in calls(h))  # type: ignore[union-attr]
+        chk.decide(appended if lst else None, "C04.R5", rh, f"headers: except {', '.join(cls)} appends a failure", "a header violating its schema is swallowed", rh.loc(h))
     # status_code_conformance: default short-circuit and membership test
     sc = P.func(f"{CHECKS}:status_code_conformance")
-    cmp_ = [n for n in walk_body(sc.node) if isinstance(n, ast.Compare) and "response.status_code" in unparse(n.left) and "allowed_status_codes" in unparse(n.comparators[0])]
+    expanded = {name_of(b, "v") for _n, b in pfind("$v = list(_expand_responses($_))", sc.node)} | {name_of(b, "v") for _n, b in pfind("$v = _expand_responses($_)", sc.node)}
+    cmp_ = [n for n in walk_body(sc.node) if isinstance(n, ast.Compare) and "response.status_code" in unparse(n.left) and isinstance(n.comparators[0], ast.Name) and n.comparators[0].id in expanded]
     if cmp_:
         chk.decide(isinstance(cmp_[0].ops[0], ast.NotIn) and any(isinstance(s, ast.Raise) for s in parent(cmp_[0]).body), "C04.R5", sc, "undocumented status => UndefinedStatusCode", "the membership test is inverted / does not raise", sc.loc(cmp_[0]))  # type: ignore[union-attr]
     else:
         chk.undecided("C04.R5", sc, "undocumented status => UndefinedStatusCode", "membership test not found", sc.loc())
-    d = [n for n in walk_body(sc.node) if isinstance(n, ast.If) and unparse(n.test) == "'default' in responses"]
+    d = [n for n in walk_body(sc.node) if isinstance(n, ast.If) and pmatch("'default' in $_", n.test) is not None]
     chk.expect(bool(d) and any(isinstance(s, ast.Return) for s in d[0].body), "C04.R5", sc, "`default` documents every status", "default short-circuit not recognised", sc.loc())
     # content type conformance: raise after the loop when nothing matched; missing content type raises
     ct = P.func(f"{CHECKS}:content_type_conformance")
     last = ct.node.body[-1]
     chk.decide(isinstance(last, ast.Raise) and "UndefinedContentType" in unparse(last.exc, 100), "C04.R5", ct, "no documented media type matched => UndefinedContentType", "falling out of the loop no longer raises: an undocumented Content-Type is passed", ct.loc(last))
-    miss = [n for n in walk_body(ct.node) if isinstance(n, ast.If) and unparse(n.test) == "not content_types"]
-    chk.decide(bool(miss) and any(isinstance(s, ast.Raise) for s in miss[0].body), "C04.R5", ct, "missing Content-Type => MissingContentType", "a response without Content-Type is passed although media types are documented", ct.loc())
+    received = {name_of(b, "v") for _n, b in pfind("$v = $_.headers.get('content-type')", ct.node)}
+    miss = [n for n in walk_body(ct.node) if isinstance(n, ast.If) and (m := pmatch("not $v", n.test)) is not None and name_of(m, "v") in received]
+    if not received:
+        chk.undecided("C04.R5", ct, "missing Content-Type => MissingContentType", "the read of the response's content-type header is not recognised", ct.loc())
+    else:
+        chk.decide(bool(miss) and any(isinstance(s, ast.Raise) for s in miss[0].body), "C04.R5", ct, "missing Content-Type => MissingContentType", "a response without Content-Type is passed although media types are documented", ct.loc())
 
 
 def r6_copy_discipline(chk: Check) -> None:
